@@ -754,12 +754,28 @@ func (in *Interp) convert(v Value, from, to types.Type, at ast.Node) Value {
 				}
 				return &Slice{Back: bk, Hi: len(x.S), Cap: len(x.S), Elem: sl.Elem()}
 			}
+			if x.Chars != nil {
+				bk := &Backing{}
+				for _, c := range x.Chars {
+					bk.E = append(bk.E, &Cell{c})
+				}
+				return &Slice{Back: bk, Hi: len(x.Chars), Cap: len(x.Chars), Elem: sl.Elem()}
+			}
 			in.fail(at, "[]byte of an unknown string")
 		}
 		return x
 	case *Slice:
 		if b, ok := to.Underlying().(*types.Basic); ok && b.Info()&types.IsString != 0 {
-			return &StrVal{}
+			// string(bytes): the content at this moment
+			chars := make([]Value, 0, x.Len())
+			for i := 0; i < x.Len(); i++ {
+				bv, ok := x.At(i).V.(*Bits)
+				if !ok {
+					return &StrVal{}
+				}
+				chars = append(chars, bv)
+			}
+			return &StrVal{Chars: chars}
 		}
 		return x
 	case NilVal:
@@ -787,6 +803,9 @@ func (in *Interp) builtin(name string, x *ast.CallExpr) Value {
 		case *StrVal:
 			if b.Known {
 				return in.D.Const(int64(len(b.S)), 64, true)
+			}
+			if b.Chars != nil {
+				return in.D.Const(int64(len(b.Chars)), 64, true)
 			}
 		case NilVal:
 			return in.D.Const(0, 64, true)
